@@ -152,8 +152,8 @@ func Payload(sp *spec.Spec, m *spec.Method, r *vc.Rand, mode int) (tree any, non
 		if loc == valgen.Path && vtree.Kind(v) == "s" && vtree.Text(v) == "" {
 			v = vtree.S("p")
 		}
-		if loc == valgen.Header && vtree.Kind(v) == "s" && vtree.Text(v) == "" {
-			v = vtree.S("h")
+		if (loc == valgen.Header || loc == valgen.Query) && vtree.Kind(v) == "s" && vtree.Text(v) == "" {
+			v = vtree.S("h") // an empty value outside the body is absence
 		}
 		return v, false
 	}
